@@ -40,6 +40,7 @@ type Monitors struct {
 	execEv    map[int][]execRec // actor idx -> Execute/Abort events in dispatch order
 	digests   map[int]map[uint32][]byte
 	succ      map[int]map[clientpb.MessageID]int
+	execSeqs  map[int][]string // actor idx -> reconstructed executed sequence (client/seq/data digest)
 	outSeen   int
 	// observations
 	Obs map[string]int64
@@ -563,6 +564,25 @@ func (m *Monitors) checkExecEnd() {
 			}
 			if cnt == int(a.CIO.CmdCount()) && bytes.Equal(h.Sum(nil), a.CIO.Hash().Sum(nil)) {
 				m.Obs["executed_sequences_reconstructed"]++
+				// remember the sequence itself: the executed sequences of two honest replicas must be prefix-related
+				var seqStr []string
+				l2 := map[uint32]uint64{}
+				for _, ev := range m.execEv[a.Idx] {
+					if ev.abort {
+						continue
+					}
+					for _, cmd := range ev.cmds {
+						if s2, ok := l2[cmd.GetClientID()]; ok && s2 >= cmd.GetSequenceNumber() {
+							continue
+						}
+						l2[cmd.GetClientID()] = cmd.GetSequenceNumber()
+						seqStr = append(seqStr, fmt.Sprintf("%d/%d/%x", cmd.GetClientID(), cmd.GetSequenceNumber(), sha256.Sum256(cmd.GetData())))
+					}
+				}
+				if m.execSeqs == nil {
+					m.execSeqs = map[int][]string{}
+				}
+				m.execSeqs[a.Idx] = seqStr
 				for id := range m.succ[a.Idx] {
 					if !executed[id] {
 						m.violate("C06", "success-not-executed", "%s reported success for command (%d,%d), which it skipped and never executed (its state digest is that of the sequence without it)", a.Name(), id.ClientID, id.SequenceNumber)
@@ -606,6 +626,17 @@ func (m *Monitors) checkExecEnd() {
 	}
 	for i := 0; i < len(js); i++ {
 		for j := i + 1; j < len(js); j++ {
+			if sa, ok := m.execSeqs[js[i].Idx]; ok {
+				if sb, ok := m.execSeqs[js[j].Idx]; ok {
+					m.Obs["executed_sequence_pairs_compared"]++
+					for k := 0; k < len(sa) && k < len(sb); k++ {
+						if sa[k] != sb[k] {
+							m.violate("C06", "exec-sequence-diverge", "%s and %s executed different commands at position %d of their executed sequences (client/sequence/data digest %.40s vs %.40s)", js[i].Name(), js[j].Name(), k, sa[k], sb[k])
+							break
+						}
+					}
+				}
+			}
 			for cnt, d := range m.digests[js[i].Idx] {
 				if d2, ok := m.digests[js[j].Idx][cnt]; ok {
 					m.Obs["digest_comparisons"]++
